@@ -115,7 +115,7 @@ def worker(ctx, job):
     else:
         for seed, fi in job["items"]:
             rng = random.Random(seed)
-            prog = gen.gen_program(rng, gen.feat(**FEATS[fi]))
+            prog = gen.gen_program(rng, gen.pickfeat(FEATS, fi))
             compare_one(ctx, prog, gen.WATCH, "random/%d" % fi)
             ctx.hit("random_programs")
 
@@ -127,8 +127,8 @@ def run(ctx):
         tiny = ctx.rng.sample(tiny, len(tiny) // 10)
     else:
         ctx.extra["tiny_grammar_exhaustive"] = True
-    nrand = ctx.pick(700, 20000)
-    items = [(ctx.rng.randrange(1 << 30), i % len(FEATS)) for i in range(nrand)]
+    nrand = ctx.pick(700, 60000)
+    items = [(ctx.rng.randrange(1 << 30), i % gen.nfeats(FEATS, ctx)) for i in range(nrand)]
     n = 16
     jobs = [{"kind": "tiny", "items": tiny[i::n]} for i in range(n)] + [{"kind": "rand", "items": items[i::n]} for i in range(n)]
     ctx.shard(jobs, timeout=ctx.pick(300, 1500))
